@@ -1,6 +1,7 @@
 import SoyVerif.Ops.Common
 import SoyVerif.Model.AstWire
 import SoyVerif.Model.Printer
+import SoyVerif.Base.F64
 
 namespace SoyVerif.Ops.Ast
 open SoyVerif SoyVerif.Ops SoyVerif.Model
@@ -27,8 +28,8 @@ def withFile (s : String) (f : Bytes → List Cmd → String) : String :=
     | none => "BADTREE"
   | none => "BADSEXP"
 
-/-- float formatting used by the printer ops (replaced by Base/F64 once merged) -/
-def fmtFloatStub (_ : UInt64) : Bytes := [70, 63]
+/-- strconv.FormatFloat(v,'g',-1,64) through the soft-float of Base/F64.lean -/
+def fmtFloatStub (bits : UInt64) : Bytes := F64.format ⟨bits⟩
 
 def ops : List Op := [
   ("exprstr", fun f => match f with
